@@ -308,7 +308,10 @@ def replacement (lookup : List Char → Option (List Char)) (m : ReMatch) : List
 
 /-- `Regex::replace_all` as a left-to-right scan: `skip` characters of the current match are still to
     be passed over; otherwise try a match here (leftmost), emit its replacement and resume after it
-    (non-overlapping); on no match copy one character. -/
+    (non-overlapping); on no match copy one character.
+    (`m.whole` is a prefix `c :: t`, `t ≠ []`, of the input — `matchUnescapeAllRe_prefix` in
+    `Props/C12.lean` — so `m.whole.length - 1` never truncates.)
+    The early return of `unescape_all` for strings without `\` and `&` is in `unescapeAllE`. -/
 def unescapeScanE (lookup : List Char → Option (List Char)) : Nat → List Char → Except Panic (List Char)
   | _, [] => .ok []
   | skip + 1, _ :: r => unescapeScanE lookup skip r
